@@ -415,6 +415,7 @@ type zzC0102Srv struct {
 	// and whether a pause deadline is recorded ("none", "future", "past").
 	pFlag     bool
 	pDeadline string
+	faultGen  int
 	// protOff is true while the server itself reports that protection is not
 	// in effect although the configuration walked to says "on" (the one case
 	// the statement leaves open: the flag set through the DNS configuration
@@ -1023,11 +1024,26 @@ func (z *zzC0102Srv) failedRebuild(rng *rand.Rand) (done bool, err error) {
 		return false, fmt.Errorf("harness: list %s not found in the configuration", l.key)
 	}
 
+	// First make sure that no rebuild of an earlier operation is still
+	// pending (it would run into the fault, too): save the custom rules with a
+	// marker rule and wait for it.  The requests of the step before have been
+	// checked already, so this rebuild hides nothing.
+	z.faultGen++
+	if qerr := z.quiesce(1000 + z.faultGen); qerr != nil {
+		z.ops = append(z.ops, "(no fault injected: "+qerr.Error()+")")
+
+		return false, nil
+	}
+
+	// The fault, put in place atomically (the file never just disappears: a
+	// missing list file is tolerated by design).
 	z.ops = append(z.ops, "--- fault: "+path+" cannot be opened; custom rules saved again")
-	if err = os.Remove(path); err != nil {
+	tmp := path + ".zz-fault"
+	_ = os.Remove(tmp)
+	if err = os.Symlink(filepath.Base(path), tmp); err != nil {
 		return false, err
 	}
-	if err = os.Symlink(filepath.Base(path), path); err != nil {
+	if err = os.Rename(tmp, path); err != nil {
 		return false, err
 	}
 
@@ -1050,8 +1066,10 @@ func (z *zzC0102Srv) heal() (err error) {
 			}
 			for _, l := range z.lists {
 				if l.src == lists[i].URL {
-					_ = os.Remove(p)
-					err = os.WriteFile(p, zzC0102ListBody(l.key, l.lines), 0o644)
+					tmp := p + ".zz-heal"
+					if err = os.WriteFile(tmp, zzC0102ListBody(l.key, l.lines), 0o644); err == nil {
+						err = os.Rename(tmp, p)
+					}
 				}
 			}
 		}
